@@ -73,8 +73,9 @@ def step (r : Run) (line : String) : Run × String :=
           | _ => none
         match SolOutM.step lits (evalEvents r.evs) st (parseF xold) (parseF x) (parseFs ys) ip with
         | none => ({ r with dead := true, panicked := true }, "flag panic")
-        | some (st', .cont) => ({ r with st := some st' }, "flag cont")
-        | some (st', .interrupt) => ({ r with st := some st', dead := true }, "flag interrupt")
+        -- the modelled handler has no way to write through `x` / `y`: both come back as they went in
+        | some (st', .cont) => ({ r with st := some st' }, s!"flag cont x={fmtF (parseF x)} y={fmtFs (parseFs ys)}")
+        | some (st', .interrupt) => ({ r with st := some st', dead := true }, s!"flag interrupt x={fmtF (parseF x)} y={fmtFs (parseFs ys)}")
   | ["end"] =>
       match r.st with
       | some st => (r, if r.panicked then "end after-panic" else dumpSt st)
